@@ -294,6 +294,16 @@ example : (elimPlan 3 6 exNames 3 exRows (none : Option (List String))).2.1 = [(
 
 end Elimination
 
+/-- **`composition_keys(skip_keys=…)` and the argument check of `linear_dependencies(preferred)`.**
+    The keys returned with `skip_keys` are exactly the composition keys that are not skipped; a `preferred` list is refused
+    (`ValueError`) exactly when it is empty, at least as long as the substance list, or names an unknown substance — and
+    `preferred=None` is never refused. -/
+theorem helper_specs (skip : List ℤ) (subs : Substances σ A) (x : ℤ) (pref keys : List σ) :
+    (x ∈ compositionKeysSkipping skip subs ↔ x ∈ compositionKeys subs ∧ x ∉ skip) ∧
+      (checkPreferred (some pref) keys = false ↔ pref = [] ∨ keys.length ≤ pref.length ∨ ∃ k ∈ pref, k ∉ keys) ∧
+      checkPreferred (none : Option (List σ)) keys = true :=
+  ⟨mem_compositionKeysSkipping skip subs x, checkPreferred_eq_false_iff pref keys, rfl⟩
+
 omit [DecidableEq A] in
 /-- **Violation helpers** (`mass_balance_violation`, `charge_neutrality_violation`): the helper sums
     `attr(s) · net r s`; for an attribute that is a linear combination `Σ_key w key · comp s key` of the composition
@@ -328,6 +338,10 @@ variable {A : Type} [CommRing A] [DecidableEq A] {R : Type} [CommRing R] [Algebr
 def kinOf (subs : List (String × ℚ)) (env : String → R) (r : Rxn) : Reaction String R :=
   { reac := r.reac, prod := r.prod, inactReac := r.inactReac, inactProd := r.inactProd, param := kOf subs env r.param }
 
+/-- the stoichiometry of a reaction of C04's model, without any rate parameter: all that `check_balance` reads -/
+def stoichOf (r : Rxn) : Reaction String Unit :=
+  { reac := r.reac, prod := r.prod, inactReac := r.inactReac, inactProd := r.inactProd, param := () }
+
 theorem kineticRhs_eq_sum (subs : List (String × ℚ)) (env : String → R) (rxns : List Rxn) (s : String) :
     kineticRhs subs false env rxns s = ((rxns.map (kinOf subs env)).map fun r => contribution env r s).sum := by
   unfold kineticRhs
@@ -342,12 +356,14 @@ theorem generated_rhs_conserves (φ : A →+* R) (comps : Substances String A) (
     (hbind : cfg.includeParams = false → ∀ r ∈ sys.rxns, ∀ uk k, r.param = .named uk k → uk ∉ dkeys cfg.subs →
       env uk = algebraMap ℚ R k)
     (hall : ∀ sc ∈ comps, ∃ comp, sc.2 = some comp) (hne : comps ≠ [])
-    (hacc : checkBalance comps (sys.rxns.map (kinOf cfg.subs env)) false = .ok) :
+    (hacc : checkBalance comps (sys.rxns.map stoichOf) false = .ok) :
     ∃ B ck, compositionBalanceVectors comps = .ok (B, ck) ∧
       ∀ row ∈ B, (List.zipWith (fun b e => φ b * ev env e) row o.exprs).sum = 0 := by
   obtain ⟨hnames, hlen, _, hexpr⟩ := ChemModel.C04.rhs_is_kinetic_model cfg sys o hnd hsub h hnc env hbind
   have hnone := firstWithoutComposition_eq_none_iff.mpr hall
-  have hbal := (accept_iff_balanced comps (sys.rxns.map (kinOf cfg.subs env)) false hall (Or.inl hne)).mp hacc
+  have hacc' : checkBalance comps (sys.rxns.map (kinOf cfg.subs env)) false = .ok := by
+    rw [checkBalance_congr (kinOf cfg.subs env) stoichOf (fun _ _ => rfl)]; exact hacc
+  have hbal := (accept_iff_balanced comps (sys.rxns.map (kinOf cfg.subs env)) false hall (Or.inl hne)).mp hacc'
   refine ⟨_, _, compositionBalanceVectors_eq comps hnone, ?_⟩
   intro row hrow
   obtain ⟨key, _, rfl⟩ := List.mem_map.mp hrow
@@ -384,6 +400,41 @@ theorem generated_rhs_conserves (φ : A →+* R) (comps : Substances String A) (
   have : compSum r key comps = 0 := hbal r hr key
   simp [this]
 
+/-- `A2 -> 2 A` (k = 3) and `2 A -> A2` (named `kb = 5`), compositions `A2 = {1: 2}`, `A = {1: 1}` -/
+def exDimer : Sys :=
+  { subst := ["A2", "A"],
+    rxns := [{ reac := [("A2", 1)], prod := [("A", 2)], param := .raw 3 },
+             { reac := [("A", 2)], prod := [("A2", 1)], param := .named "kb" 5 }] }
+def exDimerComps : Substances String ℚ := [("A2", some [(1, 2)]), ("A", some [(1, 1)])]
+
+/-- the hypotheses of `generated_rhs_conserves` are satisfiable: both builds (inlined and free parameters) of the dimerisation
+    system are accepted, the hydrogen row `[2, 1]` is reported and annihilates the generated expressions under EVERY binding -/
+example (env : String → ℚ) : ∃ o, buildRhs {} exDimer = .ok o ∧ ∃ B ck, compositionBalanceVectors exDimerComps = .ok (B, ck) ∧
+    B = [[2, 1]] ∧ ∀ row ∈ B, (List.zipWith (fun b e => (RingHom.id ℚ) b * ev env e) row o.exprs).sum = 0 := by
+  refine ⟨_, rfl, ?_⟩
+  obtain ⟨B, ck, hB, hrow⟩ := generated_rhs_conserves (RingHom.id ℚ) exDimerComps {} exDimer _ rfl (by decide) (by decide) rfl rfl
+    (by decide +kernel) env (by intro h; cases h) (firstWithoutComposition_eq_none_iff.mp (by decide)) (by decide)
+    (by decide +kernel)
+  refine ⟨B, ck, hB, ?_, hrow⟩
+  have : compositionBalanceVectors exDimerComps = .ok ([[2, 1]], [1]) := by decide +kernel
+  rw [this] at hB
+  cases hB
+  rfl
+
+example (env : String → ℚ) (hk : env "kb" = 5) : ∃ o, buildRhs { includeParams := false } exDimer = .ok o ∧
+    ∃ B ck, compositionBalanceVectors exDimerComps = .ok (B, ck) ∧
+      ∀ row ∈ B, (List.zipWith (fun b e => (RingHom.id ℚ) b * ev env e) row o.exprs).sum = 0 := by
+  refine ⟨_, rfl, ?_⟩
+  exact generated_rhs_conserves (RingHom.id ℚ) exDimerComps { includeParams := false } exDimer _ rfl (by decide) (by decide) rfl rfl
+    (by decide +kernel) env
+    (by
+      intro _ r hr uk k hp _
+      simp only [exDimer, List.mem_cons, List.mem_singleton, List.not_mem_nil, or_false] at hr
+      rcases hr with rfl | rfl
+      · cases hp
+      · cases hp; simpa using hk)
+    (firstWithoutComposition_eq_none_iff.mp (by decide)) (by decide) (by decide +kernel)
+
 end GeneratedRhs
 
 /-! ### The hypotheses are satisfiable: water formation / autoprotolysis -/
@@ -416,5 +467,9 @@ example : checkBalance exSubs [({ reac := [("H2O", 1)], prod := [("H+", 1), ("OH
 /-- unbalanced in hydrogen only, second reaction -/
 example : checkBalance exSubs (exRxns ++ [{ reac := [("H2", 1)], prod := [], param := 1 }]) true = .violation 2 1 (-2) := by
   decide +kernel
+
+example : compositionKeysSkipping [0] exSubs = [1, 8] ∧ compositionKeys exSubs = [0, 1, 8] ∧
+    checkPreferred (some ([] : List String)) ["A", "B"] = false ∧ checkPreferred (some ["A", "B"]) ["A", "B"] = false ∧
+    checkPreferred (some ["Q"]) ["A", "B"] = false ∧ checkPreferred (some ["B"]) ["A", "B"] = true := by decide +kernel
 
 end ChemModel.C05
